@@ -487,3 +487,17 @@ M('C18', 'rules-at-other-time', AN, "        sim.py_apply_repeated_rules(states,
 M('C18', 'original-params-alias', AN, "        self.original_parameters = dict(M.get_parameter_dictionary())", "        self.original_parameters = M.get_parameter_dictionary()", 'fire', 'R18.4-restore/original')
 M('C18', 'silent-inplace-perturb', AN, "                x = np.array(state_input)\n                x[j] = x[j] - h\n                f_mh", "                x[j] = x[j] - 2*h\n                f_mh", 'silent')
 M('C18', 'silent-stencil-rewrite', AN, "                    J[i,j]= (f_h - f_mh)/(2*h) ", "                    J[i,j]= 0.5*(f_h - f_mh)/h ", 'silent')
+
+# ------------------------------------------------------------------ C03
+M('C03', 'reactant-sign', T, "            reaction_update_dict[r]  -= 1", "            reaction_update_dict[r]  += 1", 'fire', 'R3.1-accumulation/reactants')
+M('C03', 'product-multiplicity-lost', T, "            reaction_update_dict[p]  += 1", "            reaction_update_dict[p]  = 1", 'fire', 'R3.1-accumulation/products')
+M('C03', 'delay-products-into-immediate', T, "                delay_reaction_update_dict[p]  += 1", "                reaction_update_dict[p]  += 1", 'fire', 'R3.1-accumulation/delay_products')
+M('C03', 'matrix-transposed', T, "self.update_array[self.species2index[sp],reaction_index] = reaction_update_dict[sp]", "self.update_array[reaction_index,self.species2index[sp]] = reaction_update_dict[sp]", 'fire', 'R3.3-matrix-fill')
+M('C03', 'delay-matrix-from-immediate-dict', T, "self.delay_update_array[self.species2index[sp],reaction_index] = delay_reaction_update_dict[sp]", "self.delay_update_array[self.species2index[sp],reaction_index] = reaction_update_dict[sp]", 'fire', 'R3.3-matrix-fill')
+M('C03', 'compressed-drops-delay', S, "                    self.S_values[s].push_back(self.update_array[s,r]+self.delay_update_array[s,r])", "                    self.S_values[s].push_back(self.update_array[s,r])", 'fire', 'R3.4-derivative/prep')
+M('C03', 'derivative-short-sum', S, "            for j in range(self.S_indices[s].size()):\n                dxdt[s] += prop[ self.S_indices[s][j]  ] * self.S_values[s][j]\n\n\n    def py_calculate",
+  "            for j in range(1, self.S_indices[s].size()):\n                dxdt[s] += prop[ self.S_indices[s][j]  ] * self.S_values[s][j]\n\n\n    def py_calculate", 'fire', 'R3.4-derivative/calculate')
+M('C03', 'check-parameters-after-flag', T, "        self.check_parameters()\n\n        #Check for species without intial conditions.", "\n        #Check for species without intial conditions.", 'fire', 'R3.5-initialisation-check/_initialize')
+M('C03', 'new-param-zero', T, "np.concatenate((self.params_values, np.array([np.nan])))", "np.concatenate((self.params_values, np.array([0.0])))", 'fire', 'R3.5-initialisation-check/_add_param')
+M('C03', 'tuple-order', T, "        self.reaction_list.append((propensity_object, delay_object, reaction_update_dict, delay_reaction_update_dict))", "        self.reaction_list.append((propensity_object, delay_object, delay_reaction_update_dict, reaction_update_dict))", 'fire', 'R3.2-tuple-positions/_add_reaction')
+M('C03', 'silent-derivative-rewrite', S, "                dxdt[s] += prop[ self.S_indices[s][j]  ] * self.S_values[s][j]\n\n\n    def py_calculate", "                dxdt[s] = dxdt[s] + self.S_values[s][j] * prop[self.S_indices[s][j]]\n\n\n    def py_calculate", 'silent')
